@@ -42,6 +42,10 @@ type Result struct {
 	Client       server.ClientStats
 	ClientOK     bool
 	Global       server.GlobalStats
+	StartGlobal  server.GlobalStats // right after the restart, before anybody connected
+	StartStored  int                // sessions in the store at that moment
+	EndStored    int                // sessions in the store at the final quiescent point
+	EndOnline    int                // connections the scenario holds at that point
 	PublishPanic string // recovered panic of Publisher.Publish
 	ConnectErr   string // a fresh client could not connect after the publishes
 	PublisherErr string // the wire publisher lost its connection / got no ack
@@ -184,6 +188,8 @@ func Run(variant Variant, v byte, viaAPI bool, extra int) (*Result, error) {
 		}
 	}
 	defer stop()
+	res.StartGlobal = b2.Srv.StatsManager().GetGlobalStats()
+	res.StartStored = storedSessions(b2)
 	// new messages for the restored session
 	var pub2 *wire.Client
 	if !viaAPI {
@@ -277,6 +283,11 @@ func Run(variant Variant, v byte, viaAPI bool, extra int) (*Result, error) {
 	}
 	res.Client, res.ClientOK = b2.Srv.StatsManager().GetClientStats("sleeper")
 	res.Global = b2.Srv.StatsManager().GetGlobalStats()
+	res.EndStored = storedSessions(b2)
+	res.EndOnline = 1
+	if pub2 != nil {
+		res.EndOnline = 2
+	}
 	s2.Disconnect(0, nil)
 	stop()
 	return res, nil
@@ -337,10 +348,31 @@ func (r *Result) Conservation() (sigs, whats []string) {
 	if r.Variant != "full" && r.Received[first] > 0 {
 		add("restored.expired_delivered:"+tag, fmt.Sprintf("m1 (%s) was delivered after the restart", r.Variant))
 	}
+	// session and queue gauges: the sessions the store brought back are offline sessions, what their queues hold is queued
+	sg := r.StartGlobal.ConnectionStats
+	if sg.ActiveCurrent != 0 || sg.InactiveCurrent != uint64(r.StartStored) {
+		add("restored.session_gauges_at_start:"+tag, fmt.Sprintf("right after the restart the store holds %d sessions and nobody is connected: ActiveCurrent=%d InactiveCurrent=%d", r.StartStored, sg.ActiveCurrent, sg.InactiveCurrent))
+	}
+	eg := r.Global.ConnectionStats
+	if eg.ActiveCurrent != uint64(r.EndOnline) || eg.InactiveCurrent != uint64(r.EndStored-r.EndOnline) {
+		add("restored.session_gauges:"+tag, fmt.Sprintf("%d connections are up and the store holds %d sessions: ActiveCurrent=%d InactiveCurrent=%d", r.EndOnline, r.EndStored, eg.ActiveCurrent, eg.InactiveCurrent))
+	}
+	for name, g := range map[string]uint64{"client.QueuedCurrent": r.Client.MessageStats.QueuedCurrent, "client.InflightCurrent": r.Client.MessageStats.InflightCurrent,
+		"global.QueuedCurrent": r.Global.MessageStats.QueuedCurrent, "global.InflightCurrent": r.Global.MessageStats.InflightCurrent} {
+		if g != 0 {
+			add("restored.queue_gauges:"+name+":"+tag, fmt.Sprintf("everything the restored session was sent has been acknowledged and nothing else is queued: %s = %d", name, g))
+		}
+	}
 	if got := q1.SentTotal; got != uint64(sum(r.Received)) {
 		add("restored.sent_total:"+tag, fmt.Sprintf("the sleeper received %d PUBLISH packets from the restarted broker, Qos1.SentTotal = %d", sum(r.Received), got))
 	}
 	return
+}
+
+func storedSessions(b *broker.Broker) int {
+	n := 0
+	_ = b.Srv.ClientService().IterateSession(func(*gmqtt.Session) bool { n++; return true })
+	return n
 }
 
 func sum(m map[string]int) int {
